@@ -8,12 +8,13 @@ Fixpoint nclosing (l : list pthread) : N := match l with [] => 0 | t :: r => (if
    threads hold; at most one close marker is ever written (or about to be), and only when no handle is left *)
 Definition cinv (s : cpst) : Prop :=
   ctr s = 2 * undrained s + (if closemark s then 1 else 0) /\
-  handles s = sum_mine (thr s) /\
+  handles s = sum_mine (thr s) + (if lt_cbhandle (lp s) then 1 else 0) /\
   Forall (fun t => wf_prog (pt_mine t) (pt_ops t) = true) (thr s) /\
   nclosing (thr s) + closes s <= 1 /\
   (0 < nclosing (thr s) + closes s -> handles s = 0) /\
   (closemark s = true -> closes s = 1) /\
-  (registered s = false -> closes s = 1 /\ closemark s = false /\ undrained s = 0).
+  (registered s = false -> closes s = 1 /\ closemark s = false /\ undrained s = 0) /\
+  (lt_stage (lp s) <> LIdle -> registered s = true).
 
 Lemma sum_mine_upd l : forall i t t', nth_error l i = Some t ->
   sum_mine (upd_thr l i t') + pt_mine t = sum_mine l + pt_mine t'.
@@ -38,22 +39,37 @@ Proof. revert i; induction l as [|x r IH]; intros [|i] H; cbn in *; try discrimi
 Lemma nclosing_ge l i t : nth_error l i = Some t -> pt_closing t = true -> 1 <= nclosing l.
 Proof. revert i; induction l as [|x r IH]; intros [|i] H Hc; cbn in *; try discriminate; [injection H as ->; rewrite Hc; lia|specialize (IH i H Hc); lia]. Qed.
 
-Ltac csplit := unfold cinv; cbn [ctr handles registered lp thr undrained closemark closes tr pt_mine pt_ops pt_closing]; split; [|split; [|split; [|split; [|split; [|split]]]]].
-Ltac pcbn := cbn [ctr handles registered lp thr undrained closemark closes tr pt_mine pt_ops pt_closing].
+Ltac pcbn := cbn [ctr handles registered lp thr undrained closemark closes tr pt_mine pt_ops pt_closing lt_stage lt_ops lt_cbpings lt_cbhandle].
+Ltac csplit := unfold cinv; pcbn; split; [|split; [|split; [|split; [|split; [|split; [|split]]]]]].
 
 Lemma cinv_step s k : cinv s -> cinv (cp_step s k).
 Proof.
-  intros Hinv. pose proof Hinv as (I1 & I2 & I3 & I4 & I5 & I6 & I7). destruct k as [|i]; cbn [cp_step].
+  intros Hinv. pose proof Hinv as (I1 & I2 & I3 & I4 & I5 & I6 & I7 & I8). destruct k as [|i]; cbn [cp_step].
   - (* the loop thread *)
-    unfold lp_step. destruct (lt_stage (lp s)).
+    unfold lp_step. destruct (lt_stage (lp s)) eqn:Est.
     + destruct (lt_ops (lp s)) as [|[] r]; [exact Hinv|].
-      destruct (registered s && (0 <? ctr s)); unfold cinv; pcbn; repeat split; try assumption; try (apply I7; assumption).
-    + unfold cinv; pcbn.
-      split; [reflexivity|]. split; [exact I2|]. split; [exact I3|]. split; [exact I4|]. split; [exact I5|]. split; [discriminate|].
-      intros H. destruct (N.odd (ctr s)) eqn:Ho.
-      * destruct (closemark s) eqn:Ec; [split; [apply I6; reflexivity|split; reflexivity]|].
-        rewrite I1 in Ho. rewrite N.add_0_r, N.odd_mul, N.odd_2 in Ho. discriminate.
-      * destruct (I7 H) as [A _]. split; [exact A|split; reflexivity].
+      destruct (registered s && (0 <? ctr s)) eqn:Ec.
+      * apply andb_prop in Ec as [Er _]. csplit; try assumption; try (intros; discriminate). intros _. exact Er.
+      * csplit; try assumption; try (intros H; exfalso; apply H; reflexivity).
+    + (* drain *)
+      assert (Hr : registered s = true) by (apply I8; discriminate).
+      assert (Hodd : N.odd (ctr s) = closemark s).
+      { rewrite I1. destruct (closemark s); [rewrite N.add_1_r, N.odd_succ, N.even_mul; reflexivity|rewrite N.add_0_r, N.odd_mul; reflexivity]. }
+      rewrite Hodd. destruct (closemark s) eqn:Ecm.
+      * (* the close marker: the source removes itself *)
+        rewrite andb_false_r. cbn [negb andb]. csplit; try assumption; try reflexivity; try discriminate.
+        -- intros _. split; [apply I6; reflexivity|split; reflexivity].
+        -- intros H. exfalso. apply H. reflexivity.
+      * cbn [negb]. rewrite andb_true_r.
+        destruct (2 <=? ctr s); destruct (lt_cbpings (lp s)) as [|lcb']; cbn [andb pred];
+          csplit; try assumption; try reflexivity; try discriminate;
+          try (intros H; exfalso; apply H; reflexivity); try (intros _; exact Hr); try (intros Hf; congruence).
+    + (* the callback's own ping *)
+      assert (Hr : registered s = true) by (apply I8; discriminate).
+      csplit; try assumption; try discriminate.
+      * rewrite I1. unfold INCREMENT_PING. lia.
+      * intros Hf. congruence.
+      * intros H. exfalso. apply H. reflexivity.
   - (* a pinger thread *)
     destruct (nth_error (thr s) i) as [t|] eqn:En; [|exact Hinv].
     pose proof (sum_mine_upd (thr s) i t) as SU. pose proof (nclosing_upd (thr s) i t) as NU.
@@ -66,7 +82,7 @@ Proof.
       cbn in SU, NU.
       assert (Hc0 : closes s = 0) by lia.
       assert (Hm : closemark s = false) by (destruct (closemark s); [specialize (I6 eq_refl); lia|reflexivity]).
-      csplit.
+      csplit; try assumption.
       * rewrite I1, Hm. unfold INCREMENT_CLOSE. lia.
       * lia.
       * apply forall_upd; [exact I3|exact Wt].
@@ -80,39 +96,32 @@ Proof.
       * (* ping *)
         cbn in Wt. apply andb_prop in Wt as [Wm Wr]. apply N.ltb_lt in Wm.
         specialize (SU (mkPT r (pt_mine t) false) En). specialize (NU (mkPT r (pt_mine t) false) En). cbn in SU, NU.
-        csplit.
+        csplit; try assumption.
         -- rewrite I1. unfold INCREMENT_PING. lia.
         -- lia.
         -- apply forall_upd; [exact I3|exact Wr].
         -- lia.
         -- intros H. apply I5. lia.
-        -- exact I6.
         -- intros H. destruct (I7 H) as (A & B & C). assert (handles s = 0) by (apply I5; lia). lia.
       * (* clone *)
         cbn in Wt. apply andb_prop in Wt as [Wm Wr]. apply N.ltb_lt in Wm.
         specialize (SU (mkPT r (pt_mine t + 1) false) En). specialize (NU (mkPT r (pt_mine t + 1) false) En). cbn in SU, NU.
-        csplit.
-        -- exact I1.
+        csplit; try assumption.
         -- lia.
         -- apply forall_upd; [exact I3|exact Wr].
         -- lia.
         -- intros H. assert (handles s = 0) by (apply I5; lia). lia.
-        -- exact I6.
-        -- exact I7.
       * (* drop *)
         cbn in Wt. apply andb_prop in Wt as [Wm Wr]. apply N.ltb_lt in Wm.
         assert (Hz : nclosing (thr s) + closes s = 0).
         { destruct (N.eq_dec (nclosing (thr s) + closes s) 0) as [E|E]; [exact E|]. assert (handles s = 0) by (apply I5; lia). lia. }
         specialize (SU (mkPT r (pt_mine t - 1) (handles s =? 1)) En). specialize (NU (mkPT r (pt_mine t - 1) (handles s =? 1)) En).
         cbn in SU, NU.
-        csplit.
-        -- exact I1.
+        csplit; try assumption.
         -- lia.
         -- apply forall_upd; [exact I3|exact Wr].
         -- destruct (handles s =? 1); lia.
         -- intros H. destruct (N.eqb_spec (handles s) 1) as [E|E]; lia.
-        -- exact I6.
-        -- exact I7.
 Qed.
 
 Lemma sum_mine_init progs : sum_mine (map (fun p => mkPT p 1 false) progs) = N.of_nat (length progs).
@@ -120,16 +129,22 @@ Proof. induction progs as [|p r IH]; cbn [map sum_mine length pt_mine]; [reflexi
 Lemma nclosing_init progs : nclosing (map (fun p => mkPT p 1 false) progs) = 0.
 Proof. induction progs as [|p r IH]; cbn; [reflexivity|exact IH]. Qed.
 
-Lemma cinv_init progs nd : Forall (fun p => wf_prog 1 p = true) progs -> cinv (cp_init progs nd).
+Lemma cinv_init progs nd cbp : Forall (fun p => wf_prog 1 p = true) progs -> cinv (cp_init progs nd cbp).
 Proof.
-  intros H. unfold cinv, cp_init. cbn [ctr handles registered lp thr undrained closemark closes tr].
-  rewrite sum_mine_init, nclosing_init. repeat split; try reflexivity; try lia; try discriminate.
-  apply Forall_forall. intros t Ht. apply in_map_iff in Ht as [p [<- Hp]]. rewrite Forall_forall in H. apply H. exact Hp.
+  intros H. unfold cp_init. csplit.
+  - reflexivity.
+  - rewrite sum_mine_init. destruct cbp; reflexivity.
+  - apply Forall_forall. intros t Ht. apply in_map_iff in Ht as [p [<- Hp]]. rewrite Forall_forall in H. apply H. exact Hp.
+  - rewrite nclosing_init. lia.
+  - rewrite nclosing_init. lia.
+  - discriminate.
+  - discriminate.
+  - intros Hd. exfalso. apply Hd. reflexivity.
 Qed.
 
-Lemma cinv_run progs nd sched : Forall (fun p => wf_prog 1 p = true) progs -> cinv (cp_run progs nd sched).
+Lemma cinv_run progs nd cbp sched : Forall (fun p => wf_prog 1 p = true) progs -> cinv (cp_run progs nd cbp sched).
 Proof.
-  intros H. unfold cp_run. generalize (cinv_init progs nd H). generalize (cp_init progs nd).
+  intros H. unfold cp_run. generalize (cinv_init progs nd cbp H). generalize (cp_init progs nd cbp).
   induction sched as [|k r IH]; intros s Hs; cbn; [exact Hs|]. apply IH. apply cinv_step. exact Hs.
 Qed.
 
@@ -158,14 +173,14 @@ Proof. induction l as [|t r IH]; cbn; intros H; constructor; [destruct (pt_closi
 Lemma quiet_after_removal s : cinv s -> registered s = false ->
   ctr s = 0 /\ Forall (fun t => pt_ops t = [] /\ pt_closing t = false) (thr s).
 Proof.
-  intros (I1 & I2 & I3 & I4 & I5 & I6 & I7) Hr. destruct (I7 Hr) as (A & B & C).
+  intros (I1 & I2 & I3 & I4 & I5 & I6 & I7 & I8) Hr. destruct (I7 Hr) as (A & B & C).
   split; [rewrite I1, B, C; reflexivity|].
   assert (H0 : handles s = 0) by (apply I5; lia).
   assert (Hn : nclosing (thr s) = 0) by lia.
-  rewrite I2 in H0. pose proof (sum_zero_all _ H0) as M. pose proof (nclosing_zero_all _ Hn) as Cl.
+  rewrite I2 in H0. assert (H0' : sum_mine (thr s) = 0) by lia. pose proof (sum_zero_all _ H0') as M. pose proof (nclosing_zero_all _ Hn) as Cl.
   rewrite Forall_forall in *. intros t Ht. split; [|apply Cl; exact Ht].
   specialize (I3 t Ht). specialize (M t Ht). rewrite M in I3. destruct (pt_ops t) as [|[] r]; [reflexivity|..]; cbn in I3; discriminate.
 Qed.
 (* the source is only ever removed by a drain that saw the close marker: never while a handle is alive *)
 Lemma removed_only_after_close s : cinv s -> registered s = false -> handles s = 0 /\ closes s = 1.
-Proof. intros (I1 & I2 & I3 & I4 & I5 & I6 & I7) Hr. destruct (I7 Hr) as (A & _). split; [apply I5; lia|exact A]. Qed.
+Proof. intros (I1 & I2 & I3 & I4 & I5 & I6 & I7 & I8) Hr. destruct (I7 Hr) as (A & _). split; [apply I5; lia|exact A]. Qed.
